@@ -122,6 +122,19 @@ class MinMaxLengthType(DiagCodedType):
                 f"(Is: {data_length} bytes.)", EncodeError)
             data_length = self.max_length
 
+        # ensure that the termination sequence is not encountered
+        # within the encoded value: when decoding, the value ends at
+        # the first correctly aligned termination sequence located
+        # after the minimum length
+        termination_sequence = self.__termination_sequence()
+        n = len(termination_sequence)
+        if n > 0 and any(raw_value[i:i + n] == termination_sequence
+                         for i in range(0, len(raw_value), n)
+                         if i >= self.min_length):
+            odxraise(
+                f"The value {internal_value!r} cannot be encoded because it contains "
+                f"the termination sequence 0x{termination_sequence.hex()}", EncodeError)
+
         encode_state.emplace_atomic_value(
             internal_value=raw_value,
             used_mask=None,
@@ -130,9 +143,6 @@ class MinMaxLengthType(DiagCodedType):
             base_type_encoding=None,
             is_highlow_byte_order=True,
         )
-
-        # TODO: ensure that the termination delimiter is not
-        # encountered within the encoded value.
 
         odxassert(
             self.termination != Termination.END_OF_PDU or encode_state.is_end_of_pdu,
@@ -144,8 +154,6 @@ class MinMaxLengthType(DiagCodedType):
             # must not add the termination sequence
             pass
         else:
-            termination_sequence = self.__termination_sequence()
-
             # ensure that we don't try to encode an odd-length
             # value when using a two-byte terminator
             odxassert(data_length % len(termination_sequence) == 0)
